@@ -10,8 +10,9 @@
   TABLES    Compression::X -> CompressionCodec::X; every codec has an encoder arm, a state (decoder) arm and a
             left-after-take arm
   LEVEL     every CompressionLevel reaching a library constructor went through clip(max)
-  CONSUMED  every exit from a block passes into_left_after_take (with `?`); zstd additionally drives the decoder
-            to its end and errs on leftover data
+  CONSUMED  every exit from a block passes into_left_after_take (with `?`); every streaming decoder (deflate, bzip2,
+            xz, zstd) is first driven to its end by a 1-byte read whose error propagates and whose non-zero result
+            is an error (a decoder that was never pulled leaves its compressed bytes in the block: F10)
   RESET     a reused streaming encoder is reset before each block; bzip2/xz build a fresh encoder per block
 It does NOT decide equality of what is read back nor buffer-boundary arithmetic inside the C libraries.
 """
